@@ -70,7 +70,12 @@ class SdRunner(ScenarioRunner):
                                 
                             
                         series.name = scenarios[scenario].scenario_manager + "_" + scenarios[scenario].name + "_" + equation
-                        plot_df[series.name] = series
+                        # outer join: keep the time grid of every scenario (assigning the column would cut the series to the
+                        # index of the first scenario and drop the rows of a scenario that runs longer or with a smaller dt)
+                        if series.name in plot_df.columns:
+                            plot_df[series.name] = series
+                        else:
+                            plot_df = series.to_frame() if len(plot_df.columns) == 0 else plot_df.join(series, how="outer")
             
             simulation_results=[]
             if return_format=="dict" or return_format=="json":
